@@ -17,10 +17,11 @@ struct RouteCfg { int bw; int64_t lat; const char* name; };
 const RouteCfg ROUTES[] = { { 0, 1000000, "lat1ms" }, { 1000000, 40000000, "1MB/s+40ms" }, { 50000, 0, "50kB/s" } };
 struct WPlan { std::vector<int> sizes; int layout; const char* name; }; // layout: 0 one buffer, 1 two buffers (odd cut), 2 three buffers (middle one empty)
 const WPlan WPLANS[] = {
-	{ { 1 }, 0, "w[1]" }, { { MSS - 1, MSS + 1 }, 1, "w[mss-1,mss+1]x2bufs" }, { { 3 * MSS + 7 }, 2, "w[3mss+7]x3bufs" }, { { MSS, 1, MSS, 700 }, 0, "w[mss,1,mss,700]" }, { { 5 * MSS }, 1, "w[5mss]x2bufs" } };
-enum RStyle { R_ASYNC, R_WAIT_NONBLOCK, R_ONCE };
+	{ { 1 }, 0, "w[1]" }, { { MSS - 1, MSS + 1 }, 1, "w[mss-1,mss+1]x2bufs" }, { { 3 * MSS + 7 }, 2, "w[3mss+7]x3bufs" }, { { MSS, 1, MSS, 700 }, 0, "w[mss,1,mss,700]" }, { { 5 * MSS }, 1, "w[5mss]x2bufs" }, { { 60, 40 }, 0, "w[60,40]" } };
+enum RStyle { R_ASYNC, R_WAIT_NONBLOCK, R_ONCE, R_LATE /* the first read is posted 500 ms after the connection is up: everything, end-of-file included, may be queued by then */ };
 struct RPlan { RStyle style; std::vector<int> bufs; const char* name; };
-const RPlan RPLANS[] = { { R_ASYNC, { 7 }, "read(7)" }, { R_ASYNC, { MSS }, "read(mss)" }, { R_ASYNC, { 100, 4096 }, "read(100+4096)" }, { R_WAIT_NONBLOCK, { 1000 }, "wait+read_some(1000)*" }, { R_ONCE, { 500 }, "read(500) once, then stop" } };
+const RPlan RPLANS[] = { { R_ASYNC, { 7 }, "read(7)" }, { R_ASYNC, { MSS }, "read(mss)" }, { R_ASYNC, { 100, 4096 }, "read(100+4096)" }, { R_WAIT_NONBLOCK, { 1000 }, "wait+read_some(1000)*" }, { R_ONCE, { 500 }, "read(500) once, then stop" },
+	{ R_LATE, { 1, 4096 }, "late read(1+4096)" }, { R_LATE, { 100, 4096 }, "late read(100+4096)" } };
 enum CloseMode { C_NEVER, C_AFTER_ALL, C_AFTER_FIRST, C_WHEN_DONE /* all written and 2001 bytes received (second connection) */ };
 const char* CLOSE_NAME[] = { "no-close", "close-after-all-writes", "close-after-first-write" };
 enum Dir { D_AB, D_BA, D_BOTH };
@@ -50,7 +51,7 @@ struct Exec
 	std::unique_ptr<World> w; std::unique_ptr<sim::simulation> sim; std::unique_ptr<asio::io_context> nA, nB;
 	std::unique_ptr<ip::tcp::socket> cli, srv; std::unique_ptr<ip::tcp::acceptor> acc;
 	std::shared_ptr<Adversary> adv; int points = 0, eof_points = 0; bool adversary_on = true;
-	Side a, b; int inc = 1; bool connected = false, accepted = false;
+	Side a, b; int inc = 1; bool connected = false, accepted = false; std::vector<std::unique_ptr<asio::high_resolution_timer>> late;
 	uint64_t budget = 200000;
 
 	bool live = false;
@@ -149,7 +150,10 @@ struct Exec
 	void start()
 	{
 		if (!(connected && accepted)) return;
-		post_read(a, b); post_read(b, a);
+		for (Side* rd : { &a, &b }) { Side* wr = rd == &a ? &b : &a;
+			if (rd->rp->style != R_LATE) { post_read(*rd, *wr); continue; }
+			late.emplace_back(new asio::high_resolution_timer(*nA)); late.back()->expires_after(ms(500));
+			late.back()->async_wait([this, rd, wr](error_code const& ec) { if (ec) return; tick(); post_read(*rd, *wr); }); }
 		pump_write(a); pump_write(b);
 	}
 
@@ -238,7 +242,7 @@ struct Exec
 		(void)aborted;
 		{ error_code ig; cli->close(ig); srv->close(ig); acc->close(ig); try { sim->run(); } catch (abort_execution const&) {} }
 		adv->held.clear();
-		cli.reset(); srv.reset(); acc.reset(); nA.reset(); nB.reset(); sim.reset(); adv.reset(); w.reset();
+		late.clear(); cli.reset(); srv.reset(); acc.reset(); nA.reset(); nB.reset(); sim.reset(); adv.reset(); w.reset();
 	}
 };
 
@@ -248,7 +252,7 @@ struct StreamEngine : Engine
 	uint64_t units(Args const& a) override
 	{
 		cfgs.clear(); N = a.thorough() ? 8 : 6; K = a.thorough() ? 3 : 2;
-		for (int r = 0; r < 3; ++r) for (int wp = 0; wp < 5; ++wp) for (int rp = 0; rp < 5; ++rp) for (int cm = 0; cm < 3; ++cm) for (int d = 0; d < 3; ++d) {
+		for (int r = 0; r < 3; ++r) for (int wp = 0; wp < 6; ++wp) for (int rp = 0; rp < 7; ++rp) for (int cm = 0; cm < 3; ++cm) for (int d = 0; d < 3; ++d) {
 			if (!a.thorough() && r == 2 && (rp == 0 || wp == 4)) continue; // slow route with 7-byte reads / longest plan: thorough only
 			cfgs.push_back(Cfg{ r, wp, rp, cm, d });
 		}
